@@ -1407,7 +1407,7 @@ pub open spec fn negotiated_spec(connect: ConnectOptions, connack: ConnackPacket
     &&& r.rejoined_session == connack.session_present
 }
 
-//@fn gneiss-mqtt/src/protocol.rs build_negotiated_settings props=C07,C09
+//@fn gneiss-mqtt/src/protocol.rs build_negotiated_settings props=C07,C09,C16
     ensures negotiated_spec(config.connect_options, *packet, r),
         packet.assigned_client_identifier matches Some(id) ==> r.client_id@ == id@,
         (packet.assigned_client_identifier is None && config.connect_options.client_id is Some) ==> r.client_id@ == config.connect_options.client_id->Some_0@,
